@@ -1,6 +1,7 @@
 (* C08/Property.v — property theorems only. *)
 From Coq Require Import String List Bool.
-From Verif Require Import Base.Str C08.Model C08.Spec C08.Proofs.
+From Verif Require Import Base.Str Base.Py C08.Model C08.Spec C08.Proofs C08.Source.
+From VerifGen Require Import C08Src.
 Import ListNotations.
 Open Scope list_scope.
 
@@ -196,3 +197,12 @@ Print Assumptions c08_slo_first_source.
 Theorem c08_disco_v0_refuted : exists m eid url, ~ spec m (OpDisco eid url) (verify_return_v0 m eid url).
 Proof. exact disco_v0_refuted. Qed.
 Print Assumptions c08_disco_v0_refuted.
+
+(* tie to the source TEXT: DiscoveryServer.verify_return as translated from /repo's current source on this
+   run (coq/gen/C08Src.v, harness/py2coq.py) computes the model's prefix test over the registered
+   discovery-response locations, for every location list and return URL *)
+Theorem c08_source_verify_return : forall (lookup : pyval -> pyval) self eid url l,
+  lookup (PStr eid) = PList (map enc_endpoint l) ->
+  src_verify_return lookup self (PStr eid) (PStr url) = PBool (existsb (fun loc => startswith url loc) l).
+Proof. exact src_verify_return_is_model. Qed.
+Print Assumptions c08_source_verify_return.
